@@ -275,6 +275,8 @@ func c05NewSys(res *mc.Result, ops []c05Op, evalAll bool) *c05Sys {
 	s := &c05Sys{ops: ops, res: res, byUID: map[types.UID]*c05Rsv{}, evalAllCycles: evalAll}
 	lister := c05Lister{s}
 	s.cache = newReservationCache(lister)
+	// the reservationSelector white-list index (node level) is switched on for the label key the reservations carry
+	s.cache.setReservationSelectorIndexConfig(&config.ReservationSelectorIndexArgs{Enabled: true, KeyPrefixes: []string{"verif/"}})
 	s.nm = newNominator(nil, lister)
 	s.h1 = &reservationEventHandler{cache: s.cache, rrNominator: s.nm}
 	s.ph = &podEventHandler{cache: s.cache, nominator: s.nm}
@@ -760,7 +762,7 @@ var c05CounterNames = []string{
 	"diag_assigned_set_size_differs", "index_entries_checked", "listing_results_checked", "get_by_pod_hits",
 	"live_reservations_checked", "matchable_reservations_checked", "diag_matchable_index_lists_unmatchable",
 	"allocate_once_nominate_filter_asked", "allocate_once_nominate_filter_skipped_no_cycle_state", "diag_before_prefilter_failed",
-	"scheduling_cycles_run", "scheduling_cycles_run_for_a_non_owner_pod", "restore_path_matched", "cycle_nothing_nominated", "cycle_nominated", "states_with_exhausted_allocate_once",
+	"scheduling_cycles_run", "scheduling_cycles_run_for_a_non_owner_pod", "restore_path_matched", "cycle_nothing_nominated", "cycle_nominated", "states_with_exhausted_allocate_once", "selector_index_entries_checked", "selector_index_live_matchable_checked",
 	"diag_reserve_did_not_assume",
 }
 var c05CounterIdx = func() map[string]int {
@@ -985,6 +987,45 @@ func (s *c05Sys) judge() []mc.Violation {
 					s.count("get_by_pod_hits", 1)
 				}
 			})
+		}
+	}
+
+	// (2d) the reservationSelector existence index: no entry for a missing reservation / under a wrong node; the node
+	// of every live matchable reservation is among the candidate nodes of a selector on the indexed key
+	for prefix, byNode := range c.nodesByPrefix {
+		for node, uids := range byNode {
+			for uid := range uids {
+				s.count("selector_index_entries_checked", 1)
+				r := s.byUID[uid]
+				if ri, ok := c.reservationInfos[uid]; !ok || ri == nil {
+					viol = append(viol, s.v("index-references-missing-reservation|nodesByPrefix"+after, node+string(uid), fmt.Sprintf("nodesByPrefix[%s][%s] lists %s which is not in the primary map", prefix, node, uid)))
+				} else if r == nil || r.placed != node {
+					viol = append(viol, s.v("index-lists-under-wrong-node|nodesByPrefix"+after, node+string(uid), fmt.Sprintf("nodesByPrefix[%s][%s] lists %s which the events placed elsewhere", prefix, node, uid)))
+				}
+			}
+		}
+	}
+	var selNodes []string
+	selHit := false
+	guard("FilterByReservationSelector", func() { selNodes, selHit = c.FilterByReservationSelector(map[string]string{c05RsvLabel: "yes"}) })
+	for _, n := range selNodes {
+		if n != "n1" && n != "n2" {
+			viol = append(viol, s.v("listing-yields-unknown-node|FilterByReservationSelector"+after, n, "FilterByReservationSelector yields "+n))
+		}
+	}
+	for _, r := range s.rsvs {
+		if !r.live() || !s.refMatchable(r) {
+			continue
+		}
+		s.count("selector_index_live_matchable_checked", 1)
+		found := false
+		for _, n := range selNodes {
+			if n == r.placed {
+				found = true
+			}
+		}
+		if !selHit || !found {
+			viol = append(viol, s.v("matchable-reservation-unreachable|FilterByReservationSelector"+after, r.def.name, fmt.Sprintf("reservation %s is live and matchable on %s and carries the indexed label, but FilterByReservationSelector yields %v (index hit %v)", r.def.name, r.placed, selNodes, selHit)))
 		}
 	}
 
@@ -1271,6 +1312,21 @@ func (s *c05Sys) cacheString() string {
 		fmt.Fprintf(&sb, " pods=%v]", ps)
 	}
 	fmt.Fprintf(&sb, " all{%s} matchable{%s} allocated{%s}", c05Index(c.reservationsOnNode), c05Index(c.matchableOnNode), c05Index(c.allocatedOnNode))
+	var sel []string
+	for prefix, byNode := range c.nodesByPrefix {
+		for node, uids := range byNode {
+			for uid := range uids {
+				sel = append(sel, prefix+"@"+node+"="+string(uid))
+			}
+		}
+	}
+	for uid, e := range c.indexEntryByUID {
+		if e != nil {
+			sel = append(sel, "entry:"+string(uid)+"@"+e.node)
+		}
+	}
+	sort.Strings(sel)
+	fmt.Fprintf(&sb, " selector%v", sel)
 	fmt.Fprintf(&sb, " nominated=%d/%d", len(s.nm.nominatedPodToNode), len(s.nm.nominatedReservePod))
 	return sb.String()
 }
